@@ -145,6 +145,9 @@ pub struct ChainCase {
     pub small_stack: bool,
     /// keep verification-at-drop enabled for the original (its verdict is irrelevant here)
     pub verify: bool,
+    /// how the original ends its life (unless by unwinding): 0 = dropped, 1 = explicit `verify()`, 2 = `report()`
+    #[serde(default)]
+    pub finish: u8,
     /// the instances end their lives while their thread is unwinding from a user panic (dropped by the unwinding)
     #[serde(default)]
     pub teardown_by_unwinding: bool,
@@ -615,7 +618,13 @@ fn execute_on(
             other => other,
         }
     } else {
-        catch(move || drop(o))
+        match case.finish {
+            1 => catch(move || o.verify()),
+            2 => catch(move || {
+                let _code = std::process::Termination::report(o);
+            }),
+            _ => catch(move || drop(o)),
+        }
     };
     if let Err(msg) = dropped {
         if msg.contains("clones still alive") {
@@ -633,6 +642,9 @@ fn execute_on(
         return Err(format!("{zm} zero-sized values with a destructor were lent, {zd} destructors ran by the end of the teardown (each must run exactly once)"));
     }
     let mut classes = vec![];
+    if !case.teardown_by_unwinding {
+        classes.push(["original-dropped", "original-ended-by-verify()", "original-ended-by-report()"][case.finish.min(2) as usize].to_string());
+    }
     if stats.make_mut > 0 {
         classes.push("make_mut-phase".to_string());
     }
@@ -759,14 +771,16 @@ pub fn case_strategy(max_threads: u8, max_per_thread: u16) -> impl Strategy<Valu
         1..=max_per_thread,
         any::<bool>(),
         proptest::bool::weighted(0.3),
+        0..3u8,
     )
-        .prop_map(|(clones, phases, threads, per_thread, small_stack, teardown_by_unwinding)| ChainCase {
+        .prop_map(|(clones, phases, threads, per_thread, small_stack, teardown_by_unwinding, finish)| ChainCase {
             clones,
             phases,
             threads,
             per_thread,
             small_stack,
             verify: per_thread % 2 == 0,
+            finish,
             teardown_by_unwinding,
         })
 }
@@ -787,18 +801,19 @@ pub fn deep_cases() -> Vec<ChainCase> {
                     per_thread: 1,
                     small_stack,
                     verify: bursts == 80,
+                    finish: (bursts / 20 % 3) as u8,
                     teardown_by_unwinding: false,
                 });
             }
         }
     }
     for threads in [2u8, 4, 8] {
-        out.push(ChainCase { clones: 0, phases: vec![], threads, per_thread: 2000, small_stack: true, verify: false, teardown_by_unwinding: false });
+        out.push(ChainCase { clones: 0, phases: vec![], threads, per_thread: 2000, small_stack: true, verify: false, finish: threads % 3, teardown_by_unwinding: false });
     }
     out
 }
 
-pub const RULE: &str = "cases = 1-4 phases of up to 12 lending operations (make_ref of Tracked / a second tracked type / u32 / String, calls answered by an answer function using make_ref, calls answered by a returns()-configured borrowed value, calls through a default body running on the delegation helper, bursts of 64-256 values) spread over the original and up to 3 clones, each phase optionally closed by make_mut / a make_mut-answered &mut return, then optionally 2-8 threads lending concurrently through a shared &Unimock, then teardown (optionally on a 192 KiB stack, optionally by letting a user panic unwind through the scope that owns the instance). After every operation every reference obtained so far is re-read against a shadow copy and the drop registry is checked. deep = long chains (5k-51k values) and 2-8 threads x 2000 values. scheduled-lent-answers = every schedule (yield points at the value-chain cells, the delegator cell, counters and locks) of 2 threads x 1-2 make_ref-answered calls through one shared &Unimock (thorough: also 3x1, 2x3), sampled schedules for 2-4 threads x 2-3 calls; oracle: every call reads the value made for it, at the call and when the thread ends, at an address of its own. Non-trivial = >= 3 consecutive held values of the same type on one instance re-read after later pushes in a phase of >= 4 operations; distinct = distinct case";
+pub const RULE: &str = "cases = 1-4 phases of up to 12 lending operations (make_ref of Tracked / a second tracked type / u32 / String, calls answered by an answer function using make_ref, calls answered by a returns()-configured borrowed value, calls through a default body running on the delegation helper, bursts of 64-256 values) spread over the original and up to 3 clones, each phase optionally closed by make_mut / a make_mut-answered &mut return, then optionally 2-8 threads lending concurrently through a shared &Unimock, then teardown (optionally on a 192 KiB stack; the original ends by drop, explicit verify() or report(), or by letting a user panic unwind through the scope that owns the instance). After every operation every reference obtained so far is re-read against a shadow copy and the drop registry is checked. deep = long chains (5k-51k values) and 2-8 threads x 2000 values. scheduled-lent-answers = every schedule (yield points at the value-chain cells, the delegator cell, counters and locks) of 2 threads x 1-2 make_ref-answered calls through one shared &Unimock (thorough: also 3x1, 2x3), sampled schedules for 2-4 threads x 2-3 calls; oracle: every call reads the value made for it, at the call and when the thread ends, at an address of its own. Non-trivial = >= 3 consecutive held values of the same type on one instance re-read after later pushes in a phase of >= 4 operations; distinct = distinct case";
 
 pub fn run(ctx: &Ctx) -> Verdict {
     let mut v = Verdict::new("exploration", RULE);
